@@ -32,6 +32,48 @@ SHIFT_FORMS = [
 ]
 
 
+def estimator_update(s, b, nz, p, ci):
+    """(fields of the estimator's result, base_ok, set of declared fields whose value differs from self's). The result may be written as
+    a functional update of self (eqx.tree_at) or as the buffer rebuilt field by field (`type(self)(observations=self.observations, ...)`):
+    the latter is an update of self exactly when every declared field other than the results receives self's own value - a field left
+    to its constructor default is lost."""
+    P = s.prog
+    self_ = ("param", "self")
+    upd = fields(p.ret)
+    base_ok = p.ret[0] == "update" and p.ret[1] == self_
+    changed = set(upd)
+    if p.ret[0] == "record" and p.ret[1] == ci.qualname:
+
+        def through_optional(v):
+            # the constructor's `asarray(x) if x is not None else <placeholder>` on a value that is a scan output / a sum
+            if isinstance(v, tuple) and v and v[0] == "ite" and isinstance(v[1], tuple) and v[1][0] == "cmp" and v[1][3] == NONE and v[1][1] in ("IsNot", "Is"):
+                v = v[2] if v[1][1] == "IsNot" else v[3]
+            while isinstance(v, tuple) and v and v[0] == "call" and v[1] in (("global", "jax.numpy.asarray"), ("global", "jax.numpy.array")) and len(v[2]) == 1 \
+                    and all(k_ == "dtype" and x_ == ("global", "float") for k_, x_ in v[3]):
+                v = v[2][0]  # the constructor's float cast of a value that is one already
+            return v
+        upd = {k_: through_optional(v_) for k_, v_ in upd.items()}
+        declared = [f_.name for f_ in P.dataclass_fields(ci)]
+        changed = {f_ for f_ in declared if f_ not in upd or nz.canon(upd[f_]) != nz.canon(("attr", self_, f_))}
+        base_ok = set(upd) <= set(declared)
+    return upd, base_ok, changed
+
+
+def check_estimator_keeps_record(s, rule):
+    """the rollout handed to training is what the estimator returns: it has to be the collected buffer with only `returns` and
+    `advantages` filled in - every recorded field (observations, actions, masks, log-probs, values, policy states) untouched"""
+    b = s.builder(inline=set())
+    nz = Normalizer(b)
+    ci, dc, fn = s.method("RolloutBuffer", "compute_returns_and_advantages")
+    p = one(s.paths(b, "RolloutBuffer", "compute_returns_and_advantages"), "compute_returns_and_advantages")
+    if not (isinstance(p.ret, tuple) and p.ret[0] in ("update", "record")):
+        raise AnalysisError(f"RolloutBuffer.compute_returns_and_advantages: return value is not a functional update of self: {show(p.ret, maxlen=200)}")
+    upd, base_ok, changed = estimator_update(s, b, nz, p, ci)
+    s.ob(rule, "RolloutBuffer.compute_returns_and_advantages", base_ok and changed == {"returns", "advantages"},
+         "the estimator returns the collected buffer with exactly the fields {returns, advantages} replaced", s.loc("RolloutBuffer", "compute_returns_and_advantages"), key="update-fields",
+         detail=f"fields that differ from self's: {sorted(changed)}", necessary_for="what was recorded during collection (masks included) is what training re-evaluates")
+
+
 def check(s):
     P = s.prog
     b = s.builder(inline=set())
@@ -44,10 +86,10 @@ def check(s):
     upd = fields(p.ret)
     if not (isinstance(p.ret, tuple) and p.ret[0] in ("update", "record")):
         raise AnalysisError(f"{con}: return value is not a functional update of self: {show(p.ret, maxlen=200)}")
-    base_ok = p.ret[0] == "update" and p.ret[1] == self_
-    s.ob("C03.4", con, base_ok and set(upd) == {"returns", "advantages"},
+    upd, base_ok, changed = estimator_update(s, b, nz, p, ci)
+    s.ob("C03.4", con, base_ok and changed == {"returns", "advantages"},
          "the result is `self` with exactly the fields {returns, advantages} replaced", loc, key="update-fields",
-         detail=f"updated fields: {sorted(upd)}", necessary_for="return_t = A_t + V_t stored under the right names")
+         detail=f"fields that differ from self's: {sorted(changed)}", necessary_for="return_t = A_t + V_t stored under the right names")
     A = upd.get("advantages")
     R = upd.get("returns")
     if A is None or R is None:
@@ -136,29 +178,40 @@ def check(s):
     s.eq("C03.4", con, nz, R, refR, "returns == advantages + values", loc, key="returns-formula",
          necessary_for="return_t = A_t + V_t")
     # C03.6 call-site alignment --------------------------------------------
-    con6 = "AbstractActorCriticOnPolicyAlgorithm.post_collect"
-    loc6 = s.loc("AbstractActorCriticOnPolicyAlgorithm", "post_collect")
-    b2 = s.builder(inline=set())
-    nz2 = Normalizer(b2)
-    pp = one(s.paths(b2, "AbstractActorCriticOnPolicyAlgorithm", "post_collect"), con6)
-    call = pp.ret
-    ok_call = isinstance(call, tuple) and call[0] == "call" and isinstance(call[1], tuple) and call[1][0] == "attr" \
-        and call[1][2] == "compute_returns_and_advantages" and call[1][1] == ("param", "buffer")
-    s.ob("C03.6", con6, ok_call, "post_collect returns buffer.compute_returns_and_advantages(...) of the collected buffer",
-         loc6, key="not-estimator-call", detail=show(call, maxlen=300))
-    if ok_call:
-        m = bind_args(fn, call[2], call[3])
-        s.eq("C03.6", con6, nz2, m.get("gamma", NONE), ("attr", ("param", "self"), "gamma"),
-             "parameter `gamma` receives self.gamma", loc6, key="gamma-arg",
-             necessary_for="γ and λ are not interchanged at the call site")
-        s.eq("C03.6", con6, nz2, m.get("gae_lambda", NONE), ("attr", ("param", "self"), "gae_lambda"),
-             "parameter `gae_lambda` receives self.gae_lambda", loc6, key="lambda-arg")
-        want_lv = s.ref(b2, "policy.value(step_state.policy_state, env.observation(step_state.env_state, key=key))[1]",
-                        {"policy": ("param", "policy"), "step_state": ("param", "step_state"), "env": ("param", "env"),
-                         "key": ("param", "key")})
-        s.eq("C03.6", con6, nz2, m.get("last_value", NONE), want_lv,
-             "parameter `last_value` receives V(obs(post-rollout env state)) under the post-rollout policy state", loc6,
-             key="bootstrap-arg", necessary_for="V_T is the supplied bootstrap value of the state after the last step")
+    # every concrete on-policy learner is examined through the post_collect IT resolves to (the shared one, or an override of its own:
+    # an override is held to the same rule, not waved through and not merely reported as unanalysed)
+    base6 = P.cls("AbstractActorCriticOnPolicyAlgorithm")
+    learners6 = sorted((c for c in P.concrete_exported("lerax.algorithm") if P.is_subclass(c, base6)), key=lambda c: c.name)
+    seen6 = set()
+    for lc in [base6] + learners6:
+        r6 = P.resolve_method(lc, "post_collect")
+        if r6 is None or id(r6[1]) in seen6:
+            continue
+        seen6.add(id(r6[1]))
+        s.method(lc.name, "post_collect")
+        con6 = f"{r6[0].name}.post_collect"
+        loc6 = P.loc(r6[0].module, r6[1])
+        b2 = s.builder(inline=set())
+        nz2 = Normalizer(b2)
+        pp = one(s.paths(b2, lc.name, "post_collect"), con6)
+        call = pp.ret
+        ok_call = isinstance(call, tuple) and call[0] == "call" and isinstance(call[1], tuple) and call[1][0] == "attr" \
+            and call[1][2] == "compute_returns_and_advantages" and call[1][1] == ("param", "buffer")
+        s.ob("C03.6", con6, ok_call, "post_collect returns buffer.compute_returns_and_advantages(...) of the collected buffer",
+             loc6, key="not-estimator-call", detail=show(call, maxlen=300))
+        if ok_call:
+            m = bind_args(fn, call[2], call[3])
+            s.eq("C03.6", con6, nz2, m.get("gamma", NONE), ("attr", ("param", "self"), "gamma"),
+                 "parameter `gamma` receives self.gamma", loc6, key="gamma-arg",
+                 necessary_for="γ and λ are not interchanged at the call site")
+            s.eq("C03.6", con6, nz2, m.get("gae_lambda", NONE), ("attr", ("param", "self"), "gae_lambda"),
+                 "parameter `gae_lambda` receives self.gae_lambda", loc6, key="lambda-arg")
+            want_lv = s.ref(b2, "policy.value(step_state.policy_state, env.observation(step_state.env_state, key=key))[1]",
+                            {"policy": ("param", "policy"), "step_state": ("param", "step_state"), "env": ("param", "env"),
+                             "key": ("param", "key")})
+            s.eq("C03.6", con6, nz2, m.get("last_value", NONE), want_lv,
+                 "parameter `last_value` receives V(obs(post-rollout env state)) under the post-rollout policy state", loc6,
+                 key="bootstrap-arg", necessary_for="V_T is the supplied bootstrap value of the state after the last step")
     # C03.7 placement -------------------------------------------------------
     sites = ast_calls_of_attr(P, "compute_returns_and_advantages")
     bad = [(m_, sc) for m_, sc, c in sites if not sc.endswith(".post_collect")]
